@@ -149,7 +149,7 @@ func genCase(r *h.Run, idx int) caseT {
 		// with TLS 1.3 nbhttp's https client does not complete a single exchange in
 		// this tree ("bad record MAC", see the final report): most TLS cases pin the
 		// client to TLS 1.2 so that the callbacks see real responses
-		c.NbTLS13 = c.Cell.TLS && rng.Intn(4) == 0
+		c.NbTLS13 = c.Cell.TLS && rng.Intn(8) == 0
 		if c.NbTLS13 && c.NbTimeout == 0 {
 			// its blocking handshake can wait for ever; without a Timeout nothing ends it
 			c.NbTimeout = 6
@@ -300,6 +300,12 @@ func runCase(r *h.Run, c caseT) {
 func (e *env) runServerCase() {
 	c := e.c
 	eng := nbhttp.NewEngine(c.Cell.Config(e))
+	// what the server itself says about the end of each connection
+	eng.OnClose(func(nc net.Conn, err error) {
+		if ra := nc.RemoteAddr(); ra != nil {
+			e.log.Add("server.onclose", ra.String(), 0, fmt.Sprintf("err=%v", err))
+		}
+	})
 	if err := eng.Start(); err != nil {
 		e.r.Inconclusive(fmt.Sprintf("case %d: start: %v", c.Index, err))
 		return
@@ -339,6 +345,21 @@ func (e *env) runServerCase() {
 	e.r.Max("max_concurrent_connections", int64(c.Raw+c.Std))
 }
 
+// runningStacks returns the stacks of the goroutines that are running or
+// runnable right now (other than the caller).
+func runningStacks() string {
+	var out []string
+	for _, p := range strings.Split(h.Stacks(), "\n\n") {
+		if (strings.Contains(p, "[running]") || strings.Contains(p, "[runnable")) && !strings.Contains(p, "runningStacks") {
+			if len(p) > 1500 {
+				p = p[:1500]
+			}
+			out = append(out, p)
+		}
+	}
+	return strings.Join(out, "\n\n")
+}
+
 func guarded(r *h.Run, c caseT) {
 	v := h.Guard(6*time.Minute, prog, func() { runCase(r, c) })
 	cls := cellClass(c.Cell)
@@ -348,7 +369,15 @@ func guarded(r *h.Run, c caseT) {
 	case "deadlock":
 		r.Violate(fmt.Sprintf("c10:%s:hang-goroutines-blocked-in-nbio", cls), v.Detail+fmt.Sprintf("\ncase %+v", c), c)
 	case "spin":
-		r.Violate(fmt.Sprintf("c10:%s:spin-no-progress", cls), v.Detail, c)
+		// the verdict is about the process: blame nbio only if a goroutine is
+		// running inside nbio frames; otherwise say what is running
+		run := runningStacks()
+		if strings.Contains(run, "github.com/lesismal/nbio") {
+			r.Violate(fmt.Sprintf("c10:%s:spin-no-progress", cls), v.Detail+"\nrunning goroutines:\n"+run, c)
+		} else {
+			fmt.Printf("case %d: process spins, no running goroutine inside nbio; running goroutines:\n%s\n", c.Index, run)
+			r.Inconclusive(fmt.Sprintf("case %d: the process burns CPU without progress but no running goroutine is inside nbio frames (see the shard log)", c.Index))
+		}
 	default:
 		r.Inconclusive(fmt.Sprintf("case %d: %s", c.Index, v.Detail))
 	}
@@ -372,9 +401,9 @@ func main() {
 		guarded(r, c)
 		return
 	}
-	n := r.N(252, 2520)
+	n := r.N(252, 10080)
 	if r.Phase == "chunked" {
-		n = r.N(36, 360)
+		n = r.N(36, 720)
 	}
 	for i := 0; i < n; i++ {
 		if !r.Mine(i) {
